@@ -335,6 +335,97 @@ def register(gen, T):
         sc_called = "rssl_ir::simplify_cbuffers(&mut module);" in fn_body(T.src("msl/src/lib.rs"), "export_to_msl") and bool(msl_lib)
         out.append("/-- msl: a cbuffer block becomes a global `ConstantBuffer<struct>` with the cbuffer's name and slot before analyse_bindings -/\n")
         out.append(f"def mslCbufferBecomesConstantBufferGlobal : Bool := {'true' if sc_ok and sc_called else 'false'}\n")
+
+        # ------------------------------------------------------------------ order of the steps of compile() / build_pipeline()
+        # every step that can end the compilation or that looks at the target, in source order; a step whose text is not
+        # found is left out of the list, a Metal tool chain lookup is listed wherever it occurs
+        def ordered(text, step_marks):
+            found = []
+            for name, rx, every in step_marks:
+                ms = list(re.finditer(rx, text))
+                for m in (ms if every else ms[:1]):
+                    found.append((m.start(), name))
+            found.sort()
+            return found
+
+        cmarks = [
+            ("argsCheck", r'if args\.support_buffer_address && !matches!\(args\.target, Target::HlslForVulkan\) \{\s*return Err\(CompileError::InvalidArgs\);', False),
+            ("toolchainLookup", r'MetalCompiler\s*::\s*find\s*\(', True),
+            ("preprocess", marks[3][1], False),
+            ("prepareTokens", marks[4][1], False),
+            ("parse", marks[5][1], False),
+            ("typeCheck", marks[6][1], False),
+            ("layoutCheck", marks[7][1], False),
+            ("bindingParams", marks[8][1], False),
+            ("buildPipelines", r'\bbuild_pipeline\s*\(', False),
+        ]
+        csteps = ordered(body, cmarks)
+        out.append("\n/-- the steps of compile() that can end the compilation or look at the target -/\n")
+        out.append("inductive CompileStep where\n" + "".join(f"  | {n}\n" for n, _, _ in cmarks) + "  deriving DecidableEq, Repr\n\n")
+        out.append("/-- ... in the order in which they stand in compile() (src/compile.rs) -/\n")
+        out.append("def compileSteps : List CompileStep := " + T.lean_list(f".{n}" for _, n in csteps) + "\n\n")
+        # build_pipeline: what comes before the match on the target, and the two arms
+        tm = re.search(r'let compiled = match args\.target \{', bp)
+        if not tm:
+            raise ExtractError("build_pipeline: `let compiled = match args.target {` not found")
+        tm_end = matching(bp, tm.end() - 1)
+
+        def arm(head_rx):
+            m = re.search(head_rx + r'\s*=>\s*\{', bp[tm.end():tm_end])
+            if not m:
+                raise ExtractError(f"build_pipeline: arm {head_rx} not found")
+            a = tm.end() + m.end() - 1
+            return a, matching(bp, a)
+
+        h0, h1 = arm(r'Target::HlslForDirectX \| Target::HlslForVulkan')
+        m0, m1 = arm(r'Target::Msl \| Target::MetalBytecode')
+        bmarks = [
+            ("selectPipeline", r'ir\.select_pipeline\(', False),
+            ("assignBindings", r'ir\.assign_api_bindings\(binding_params\)', False),
+            ("exportSource", r'(hlsl::export_to_hlsl|msl::export_to_msl)\s*\(', False),
+            ("stageRecords", r'stages\.push\(CompiledPipelineStage', False),
+            ("bytecodeGuard", r'if matches!\(args\.target, Target::MetalBytecode\) \{', False),
+            ("toolchainLookup", r'MetalCompiler\s*::\s*find\s*\(', True),
+            ("toolchainRun", r'\.execute\s*\(', True),
+        ]
+        out.append("/-- the steps of build_pipeline() -/\n")
+        out.append("inductive BuildStep where\n" + "".join(f"  | {n}\n" for n, _, _ in bmarks) + "  deriving DecidableEq, Repr\n\n")
+        for nm, text, doc in (("buildPrefixSteps", bp[:tm.start()], "before the match on the target"),
+                              ("hlslArmSteps", bp[h0:h1], "the arm of the two HLSL flavours"),
+                              ("mslArmSteps", bp[m0:m1], "the arm of Msl and MetalBytecode")):
+            out.append(f"/-- build_pipeline(), {doc} -/\n")
+            out.append(f"def {nm} : List BuildStep := " + T.lean_list(f".{n}" for _, n in ordered(text, bmarks)) + "\n\n")
+        # the lookup and the run of the Metal tool chain stand inside `if matches!(args.target, Target::MetalBytecode) { .. }`
+        marm = bp[m0:m1]
+        g = re.search(bmarks[4][1], marm)
+        inside = False
+        if g:
+            g1 = matching(marm, g.end() - 1)
+            tool_pos = [m.start() for m in re.finditer(r'MetalCompiler\s*::\s*find\s*\(|\.execute\s*\(', marm)]
+            inside = bool(tool_pos) and all(g.end() <= p < g1 for p in tool_pos)
+        tool_rx = r'\bmetal_invoker\b|\bMetalCompiler\b|\bnative_compiler\b|\bmetal_compiler\b'
+        pre_bp = body[:pos["bindingParams"]] if in_order else ""
+        build_calls = [m.start() for m in re.finditer(r'\bbuild_pipeline\s*\(', body)]
+        sfacts = {
+            # nothing but the argument check, the three rendered early exits and the layout check can leave compile()
+            # before the binding parameters are chosen
+            "fiveExitsBeforeBindingParams": in_order and len(re.findall(r'\breturn\b', pre_bp)) == 5 and '?' not in pre_bp,
+            "buildCallsAfterBindingParams": in_order and len(build_calls) == 2 and all(p > pos["bindingParams"] for p in build_calls),
+            "noToolchainInCompile": not re.search(tool_rx, body),
+            "toolchainOnlyInMslArm": not re.search(tool_rx, bp[:m0]) and not re.search(tool_rx, bp[m1:]) and
+                                     len(re.findall(r'\bmetal_invoker\b', marm)) == 1,
+            "toolchainInsideBytecodeGuard": inside,
+            "exportErrorReturnsBeforeGuard": bool(g) and marm.find("msl::export_to_msl(&ir)") >= 0 and
+                                             len(re.findall(r'\breturn\b', marm[:g.start()])) == 1,
+        }
+        out.append("/-- syntactic facts about where compile() / build_pipeline() can return and where the Metal tool chain is named -/\n")
+        out.append("structure StepFacts where\n" + "".join(f"  {k} : Bool\n" for k in sfacts) + "  deriving DecidableEq, Repr\n\n")
+        out.append("def stepFacts : StepFacts := { " + ", ".join(f"{k} := {'true' if v else 'false'}" for k, v in sfacts.items()) + " }\n\n")
+        tools = inventory([("metal_invoker", r'\bmetal_invoker\b'), ("MetalCompiler", r'\bMetalCompiler\b(?!NotFound|Failed)')])
+        out.append("/-- every textual use of the Metal tool chain crate in non-test sources of the compiler crates: (file, enclosing fn, what, how many) -/\n")
+        out.append("def toolchainUses : List (String × String × String × Nat) := [\n")
+        out.append(",\n".join(f"  ({lean_str(a)}, {lean_str(b)}, {lean_str(c)}, {n})" for a, b, c, n in tools))
+        out.append("\n]\n")
         out.append(T.footer("TargetTables"))
         return "".join(out)
 
